@@ -338,6 +338,13 @@ func pointsCases(r *rand.Rand, sh *Sharder, doc *CasesDoc, id *int, n int, repla
 		if len(pc.Start) == 0 {
 			oracles = append(oracles, fmt.Sprintf("find_holds %s %s %s %d %s", coqBool(pc.Shaped), c.Strs(pc.Targets), data, fcls, c.paths(points)))
 		}
+		// C07: whatever the payload looks like, the stitching code answers with a value or an error
+		noPanic := func(cls int) {
+			if doc.Property == "C07" {
+				oracles = append(oracles, fmt.Sprintf("negb (Nat.eqb %d 2)", cls))
+			}
+		}
+		noPanic(fcls)
 		doc.Dist[fmt.Sprintf("points:find-class:%d", fcls)]++
 		doc.Dist["points:found:"+bucket(len(points))]++
 
@@ -396,6 +403,8 @@ func pointsCases(r *rand.Rand, sh *Sharder, doc *CasesDoc, id *int, n int, repla
 			if k < nreal && fcls == 0 {
 				oracles = append(oracles, fmt.Sprintf("insert_holds %s %d %s (JObj %s) %s %d", c.paths(points), k, c.JSON(pc.Value), data, after, icls))
 			}
+			noPanic(ecls)
+			noPanic(icls)
 			doc.Dist[fmt.Sprintf("points:insert-class:%d", icls)]++
 		}
 
@@ -410,6 +419,7 @@ func pointsCases(r *rand.Rand, sh *Sharder, doc *CasesDoc, id *int, n int, repla
 			if fcls == 0 {
 				oracles = append(oracles, fmt.Sprintf("scrub_holds \"id\" %s (JObj %s) %s %d", c.paths(points), data, after, scls))
 			}
+			noPanic(scls)
 			doc.Dist[fmt.Sprintf("points:scrub-class:%d", scls)]++
 		}
 		if len(oracles) == 0 {
